@@ -49,7 +49,7 @@ int run(const Args& A) {
             if (liveSlots.size() < 2 || choice < 3) {
                 st.kind = 0; st.dst = r.below(NSLOT);
                 static const unsigned dens[] = {5, 20, 50, 80, 100};
-                st.table = randomTable(r, D, k, dens[r.below(5)]);
+                st.table = r.chance(1, 3) ? structuredTable(r, D, k, dens[r.below(5)]) : randomTable(r, D, k, dens[r.below(5)]);
                 live[st.dst] = true;
             } else if (choice < 7) {
                 st.kind = 1; st.a = r.pick(liveSlots); st.b = r.pick(liveSlots); st.dst = r.below(NSLOT);
